@@ -25,8 +25,16 @@ PINNED = ['NoRaise', 'RegistryTotal', 'SameClassTree', 'AttrsKept', 'DictUntouch
 _SCHEMA = {}
 
 
+def _full(case):
+    """Cases travel with their tree as a JSON string (the parent process stays small)."""
+    if 'tree_s' in case:
+        case = dict(case)
+        case['tree'] = json.loads(case.pop('tree_s'))
+    return case
+
+
 def _execute(case):
-    return lib_c11.run_lifecycle(case, _SCHEMA['schema'], _SCHEMA['attrs'])
+    return lib_c11.run_lifecycle(_full(case), _SCHEMA['schema'], _SCHEMA['attrs'])
 
 
 def _safe_execute(case):
@@ -93,37 +101,36 @@ def _replay_tags(d, call):
 
 
 def _pick_cases(ctx, trees, lives):
+    """trees: [(root class, size, tree as JSON string)]"""
     rnd = random.Random(ctx.seed)
     by_root = {}
     for t in trees:
-        by_root.setdefault(t['c'], []).append(t)
+        by_root.setdefault(t[0], []).append(t)
     for v in by_root.values():
-        v.sort(key=lambda t: json.dumps(t, sort_keys=True))
+        v.sort(key=lambda t: t[2])
         rnd.shuffle(v)
     cases = []
     n_target = ctx.pick(520, 10 ** 9)
-    # every root class with every lifecycle on its smallest trees, then a stratified sample
+    # every root class with every lifecycle on its smallest tree, then a round-robin sample
     for root, ts in sorted(by_root.items()):
-        small = sorted(ts, key=_size)[:1]
-        for t in small:
-            for lf in lives:
-                cases.append((t, lf))
+        t = min(ts, key=lambda t: (t[1], t[2]))
+        for lf in lives:
+            cases.append((t, lf))
     quota = max(0, n_target - len(cases))
-    pool = []
+    picked = []
     roots = sorted(by_root)
     i = 0
-    while any(by_root[r] for r in roots) and len(pool) < quota:
+    while any(by_root[r] for r in roots) and len(picked) < quota:
         r = roots[i % len(roots)]
         i += 1
         if by_root[r]:
-            pool.append(by_root[r].pop())
-    per_tree = 1
-    for j, t in enumerate(pool):
-        for q in range(per_tree):
-            cases.append((t, lives[(j * per_tree + q * 5 + rnd.randrange(len(lives))) % len(lives)]))
+            picked.append(by_root[r].pop())
+    for j, t in enumerate(picked):
+        cases.append((t, lives[(j + rnd.randrange(len(lives))) % len(lives)]))
     out = []
     for n, (t, lf) in enumerate(cases):
-        out.append({'cid': n, 'tree': t, 'life': lf, 'seed': rnd.randrange(1 << 30)})
+        out.append({'cid': n, 'root': t[0], 'size': t[1], 'tree_s': t[2], 'life': lf,
+                    'seed': rnd.randrange(1 << 30)})
     # objects that do not come from the schema enumeration: float-built LSR, unnamed species,
     # the repository's own example objects
     for j, name in enumerate(sorted(lib_c11.EXTRAS)):
@@ -158,7 +165,6 @@ def run(ctx):
         fut_rej = pool.submit(ctx.model, 'MC_' + MODULE, 'MC_%s_pinned_all' % MODULE, 1, True)
         if not ctx.quick:
             futs.append(pool.submit(ctx.model, 'MC_' + MODULE, 'MC_%s_pinned' % MODULE, 2, False))
-            fut_pinned = pool.submit(_load_cases, 'Cases_%s_pinned_d%d' % (MODULE, depth))
         # (S->C) cases and lifecycles from TLC
         data = _load_cases('Cases_%s_required_d%d' % (MODULE, depth))
         bad = [c for c in data['cases']
@@ -173,60 +179,94 @@ def run(ctx):
         timing['cases_and_lifecycles_s'] = round(time.time() - t0, 1)
         ctx.coverage['tlc_trees'] = len(data['cases'])
         ctx.coverage['tlc_lifecycles'] = len(lives)
-        cases = _pick_cases(ctx, [c['t'] for c in data['cases']], lives)
+        trees = [(c['t']['c'], _size(c['t']), json.dumps(c['t'], sort_keys=True, separators=(',', ':')))
+                 for c in data['cases']]
+        del data['cases']         # the worker processes fork from here: keep the parent small
+        cases = _pick_cases(ctx, trees, lives)
+        del trees
     _SCHEMA['schema'] = data['schema']
     _SCHEMA['attrs'] = data['attrs']
-    t1 = time.time()
     lib_c11.preload()            # import pmutt once, before the worker processes fork
-    results = core.pmap(_safe_execute, cases)
-    timing['execute_s'] = round(time.time() - t1, 1)
-    traces = []
     observed = []
+    pending = []                 # violations, reported below with one of each kind first
     edges = set()
-    for tid, (case, res) in enumerate(zip(cases, results)):
-        if res[0] == 'machinery':
-            raise core.MachineryError(res[1])
-        events, mism, obs = res
-        observed.append(obs)
-        ctx.evaluated()
-        if any(e['ev'] == 'node' or (e['ev'] == 'call' and e['raised']) for e in events):
-            ctx.nontrivial(json.dumps([case.get('tree', case.get('extra')), case['life']], sort_keys=True))
-        if 'tree' in case:
-            edges |= _classes(case['tree'])
-        seen = set()
-        for m in mism:
-            tags = _replay_tags(m['tags'], m['call'])
-            if 'extra' in case:
-                tags['extra'] = case['extra']
-            key = json.dumps(tags, sort_keys=True)
-            if key not in seen:
-                seen.add(key)
-                ctx.violation('ReplayState', case, tags=tags, detail=m)
-        traces.append((tid, events))
-        if tid % 131 == 0:
-            ctx.sample({'root': case['tree']['c'] if 'tree' in case else case['extra'],
-                        'size': _size(case['tree']) if 'tree' in case else 0, 'life': case['life']})
+    timing['execute_s'] = timing['validate_s'] = 0.0
+    n_lines = n_get = n_attr = n_judged = 0
+    BATCH = 500                  # bounds the memory held by recorded events
+    for b0 in range(0, len(cases), BATCH):
+        batch = cases[b0:b0 + BATCH]
+        t1 = time.time()
+        results = core.pmap(_safe_execute, batch)
+        timing['execute_s'] = round(timing['execute_s'] + time.time() - t1, 1)
+        traces = []
+        for k, (case, res) in enumerate(zip(batch, results)):
+            tid = b0 + k
+            if res[0] == 'machinery':
+                raise core.MachineryError(res[1])
+            events, mism, obs = res
+            observed.append(obs)
+            ctx.evaluated()
+            if any(e['ev'] == 'node' or (e['ev'] == 'call' and e['raised']) for e in events):
+                ctx.nontrivial(json.dumps([case.get('tree_s', case.get('tree', case.get('extra'))), case['life']],
+                                          sort_keys=True))
+            if 'tree_s' in case or 'tree' in case:
+                edges |= _classes(_full(case)['tree'])
+            seen = set()
+            for m in mism:
+                tags = _replay_tags(m['tags'], m['call'])
+                if 'extra' in case:
+                    tags['extra'] = case['extra']
+                key = json.dumps(tags, sort_keys=True)
+                if key not in seen:
+                    seen.add(key)
+                    pending.append(('ReplayState', case, tags, m))
+            traces.append((tid, events))
+            if tid % 131 == 0:
+                ctx.sample({'root': case.get('root') or case.get('extra') or case['tree']['c'],
+                            'size': case.get('size', 0), 'life': case['life']})
+        t1 = time.time()
+        fails, stats = core.validate_traces('Trace_' + MODULE, 'Trace', traces)
+        timing['validate_s'] = round(timing['validate_s'] + time.time() - t1, 1)
+        ctx.count('traces_validated_against_impl', len(traces))
+        n_lines += stats['lines']
+        n_get += sum(len(e['items']) for _, evs in traces for e in evs if e['ev'] == 'getters')
+        n_attr += sum(len(e['attrs']) for _, evs in traces for e in evs if e['ev'] == 'node')
+        evs_of = dict(traces)
+        by_case = {}
+        for tid, idx, clause in fails:
+            if clause.startswith('~judged:'):          # vacuity counter of the trace spec, not a verdict
+                n_judged += int(clause.split(':')[1])
+                continue
+            ev = evs_of[tid][idx]
+            base, tags = _tags_for(ev, clause)
+            if 'extra' in cases[tid]:
+                tags['extra'] = cases[tid]['extra']
+            by_case.setdefault((tid, base, json.dumps(tags, sort_keys=True)), []).append(idx)
+        for (tid, base, tg), idxs in sorted(by_case.items()):
+            ev = evs_of[tid][idxs[0]]
+            tags = json.loads(tg)
+            small = {k: v for k, v in ev.items() if k not in ('items', 'attrs')}
+            if ev['ev'] == 'node':
+                small['attrs'] = [a for a in ev['attrs'] if a[0] == tags.get('attr')]
+            if ev['ev'] == 'getters':
+                small['items'] = [it for it in ev['items'] if it[0] == tags.get('attr')]
+            detail = {'event_indices': idxs[:10], 'first_event': small}
+            pending.append((base, cases[tid], tags, detail))
+        del traces, results, evs_of
+    first, rest, kinds = [], [], set()
+    for v in pending:
+        kind = (v[0], v[2].get('class'), v[2].get('attr'))
+        (rest if kind in kinds else first).append(v)
+        kinds.add(kind)
+    for clause, case, tags, detail in first + rest:
+        ctx.violation(clause, case, tags=tags, detail=detail)
     ctx.coverage['schema_edges_exercised'] = len(edges)
-    t1 = time.time()
-    fails, stats = core.validate_traces('Trace_' + MODULE, 'Trace', traces)
-    timing['validate_s'] = round(time.time() - t1, 1)
-    ctx.count('traces_validated_against_impl', len(traces))
-    ctx.coverage['trace_lines'] = stats['lines']
-    ctx.coverage['getter_comparisons'] = sum(len(e['items']) for _, evs in traces for e in evs if e['ev'] == 'getters')
-    ctx.coverage['attribute_comparisons'] = sum(len(e['attrs']) for _, evs in traces for e in evs if e['ev'] == 'node')
-    by_case = {}
-    for tid, idx, clause in fails:
-        ev = traces[tid][1][idx]
-        base, tags = _tags_for(ev, clause)
-        if 'extra' in cases[tid]:
-            tags['extra'] = cases[tid]['extra']
-        by_case.setdefault((tid, base, json.dumps(tags, sort_keys=True)), []).append(idx)
-    for (tid, base, tg), idxs in sorted(by_case.items()):
-        ev = traces[tid][1][idxs[0]]
-        detail = {'event_indices': idxs[:10], 'first_event': {k: v for k, v in ev.items() if k not in ('items',)}}
-        if ev['ev'] == 'getters':
-            detail['first_event'] = {'path': ev['path'], 'cls': ev['cls'], 'act': ev['act']}
-        ctx.violation(base, cases[tid], tags=json.loads(tg), detail=detail)
+    ctx.coverage['trace_lines'] = n_lines
+    ctx.coverage['getter_comparisons'] = n_get
+    ctx.coverage['getter_comparisons_judged'] = n_judged       # the rest sat above an already reported loss
+    if n_get and not n_judged:
+        raise core.MachineryError('GettersEqual was never judged (every getter line was masked): vacuous')
+    ctx.coverage['attribute_comparisons'] = n_attr
     # background work: design models must have behaved as expected
     t1 = time.time()
     for f in futs:
@@ -248,17 +288,19 @@ def run(ctx):
                 raise core.MachineryError('pinned tables should be rejected, TLC said %r' % (m,))
         if not ctx.quick:
             try:
-                pinned_cases = fut_pinned.result()
+                pinned_cases = _load_cases('Cases_%s_pinned_d3' % MODULE)
                 npred = sum(1 for c in pinned_cases['cases'] if c['load'] != 'same' or c['dict'] != 'same'
                             or c['untouched'] is not True or c['again'] != 'same')
                 ctx.coverage['pinned_model_predicts_divergence_on_trees'] = npred
                 # cross-check (never a verdict): does the real tree behave as the pinned tables predict?
-                pred = {json.dumps(c['t'], sort_keys=True): c for c in pinned_cases['cases']}
+                pred = {json.dumps(c['t'], sort_keys=True, separators=(',', ':')): c
+                        for c in pinned_cases['cases']}
                 agree = {'Load': [0, 0], 'DecodeDict': [0, 0]}
                 for case, obs in zip(cases, observed):
-                    pc = pred.get(json.dumps(case.get('tree'), sort_keys=True)) if 'tree' in case else None
+                    pc = pred.get(case.get('tree_s'))
                     if pc is None:
                         continue
+                    case = _full(case)
                     for call, key in (('Load', 'load'), ('DecodeDict', 'dict')):
                         if call in obs:
                             want = lib_c11.predicted_shape(pc[key], case['tree'], data['schema'])
